@@ -20,28 +20,28 @@ package cacheutil
 //@ pure RCI(r *refCounter) bool = r.holders >= 0 && (r.holders > 0 ==> once(r.initializeOnce)) && r.refCounts == (member(r) ? 1 : 0) + r.holders && r.fired == ((once(r.initializeOnce) && !member(r) && r.holders == 0 && r.onEvicted != nil) ? 1 : 0)
 
 //@ func (r *refCounter) inc
-//@   props C10
+//@   props C10,C12
 //@   arith math
 //@   modifies r.refCounts
-//@   ensures[C10] r.refCounts == old(r.refCounts) + 1
+//@   ensures[C10,C12] r.refCounts == old(r.refCounts) + 1
 //@ func (r *refCounter) dec
-//@   props C10
+//@   props C10,C12
 //@   arith math
 //@   modifies r.refCounts, r.fired
-//@   ensures[C10] r.refCounts == old(r.refCounts) - 1
-//@   ensures[C10] r.fired == old(r.fired) + ((r.refCounts <= 0 && r.onEvicted != nil) ? 1 : 0)
+//@   ensures[C10,C12] r.refCounts == old(r.refCounts) - 1
+//@   ensures[C10,C12] r.fired == old(r.fired) + ((r.refCounts <= 0 && r.onEvicted != nil) ? 1 : 0)
 //@ func (r *refCounter) initialize
-//@   props C10
+//@   props C10,C12
 //@   arith math
 //@   modifies r.refCounts, once(r.initializeOnce)
-//@   ensures[C10] once(r.initializeOnce) && r.refCounts == old(r.refCounts) + (old(once(r.initializeOnce)) ? 0 : 1)
+//@   ensures[C10,C12] once(r.initializeOnce) && r.refCounts == old(r.refCounts) + (old(once(r.initializeOnce)) ? 0 : 1)
 //@ func (r *refCounter) finalize
-//@   props C10
+//@   props C10,C12
 //@   arith math
 //@   modifies r.refCounts, r.fired, once(r.finalizeOnce)
-//@   ensures[C10] once(r.finalizeOnce)
-//@   ensures[C10] old(once(r.finalizeOnce)) ==> r.refCounts == old(r.refCounts) && r.fired == old(r.fired)
-//@   ensures[C10] !old(once(r.finalizeOnce)) ==> r.refCounts == old(r.refCounts) - 1 && r.fired == old(r.fired) + ((r.refCounts <= 0 && r.onEvicted != nil) ? 1 : 0)
+//@   ensures[C10,C12] once(r.finalizeOnce)
+//@   ensures[C10,C12] old(once(r.finalizeOnce)) ==> r.refCounts == old(r.refCounts) && r.fired == old(r.fired)
+//@   ensures[C10,C12] !old(once(r.finalizeOnce)) ==> r.refCounts == old(r.refCounts) - 1 && r.fired == old(r.fired) + ((r.refCounts <= 0 && r.onEvicted != nil) ? 1 : 0)
 
 // ---- LRU cache: monitor on c.mu over an assumed contract of groupcache/lru ----
 // lruRes: ghost view of the inner lru.Cache (key -> resident *refCounter). The inner cache is external: its contract
@@ -125,38 +125,38 @@ package cacheutil
 // their own key; every refCounter satisfies RCI (so: holders > 0 ==> fired == 0, and fired <= 1).
 //@ pure TTE(c *TTLCache) bool = c.m != nil && (forall k string :: k in c.m ==> c.m[k] != nil && c.m[k].refCounter != nil && c.m[k].t != nil && member(c.m[k].refCounter) && c.m[k].refCounter.key == k && c.m[k].refCounter.owner == ref(c.m[k]))
 //@ type TTLCache
-//@   guards[C10] mu: m, refCounter.refCounts, refCounter.holders, refCounter.fired, refCounter.initializeOnce, refCounter.finalizeOnce, once
-//@   invariant[C10] mu: TTE(self)
-//@   invariant[C10] mu: forall r *refCounter :: RCI(r)
+//@   guards[C10,C12] mu: m, refCounter.refCounts, refCounter.holders, refCounter.fired, refCounter.initializeOnce, refCounter.finalizeOnce, once
+//@   invariant[C10,C12] mu: TTE(self)
+//@   invariant[C10,C12] mu: forall r *refCounter :: RCI(r)
 
 //@ func (c *TTLCache) decreaseOnceFunc
 //@   ghostentry rc.refCounter.holders = rc.refCounter.holders + 1
 //@   ghostentry rc.refCounter.owner = ref(rc)
 
 //@ func (c *TTLCache) Get
-//@   props C10
+//@   props C10,C12
 //@   arith math
-//@   ensures[C10] ok <==> locked(key in c.m)
-//@   ensures[C10] ok ==> done != nil && value == locked(c.m[key].refCounter.v) && locked(c.m[key]).refCounter.holders == locked(c.m[key].refCounter.holders) + 1
-//@   ensures[C10] forall k string :: (k in c.m <==> locked(k in c.m)) && c.m[k] == locked(c.m[k])
+//@   ensures[C10,C12] ok <==> locked(key in c.m)
+//@   ensures[C10,C12] ok ==> done != nil && value == locked(c.m[key].refCounter.v) && locked(c.m[key]).refCounter.holders == locked(c.m[key].refCounter.holders) + 1
+//@   ensures[C10,C12] forall k string :: (k in c.m <==> locked(k in c.m)) && c.m[k] == locked(c.m[k])
 //@ func (c *TTLCache) Add
-//@   props C10
+//@   props C10,C12
 //@   arith math
-//@   ensures[C10] done != nil && (added <==> !locked(key in c.m))
-//@   ensures[C10] !added ==> cachedValue == locked(c.m[key].refCounter.v) && c.m[key] == locked(c.m[key]) && locked(c.m[key]).refCounter.holders == locked(c.m[key].refCounter.holders) + 1
-//@   ensures[C10] added ==> key in c.m && cachedValue == value && c.m[key].refCounter.holders == 1 && c.m[key].refCounter.fired == 0
-//@   ensures[C10] forall k string :: k != key ==> ((k in c.m <==> locked(k in c.m)) && c.m[k] == locked(c.m[k]))
+//@   ensures[C10,C12] done != nil && (added <==> !locked(key in c.m))
+//@   ensures[C10,C12] !added ==> cachedValue == locked(c.m[key].refCounter.v) && c.m[key] == locked(c.m[key]) && locked(c.m[key]).refCounter.holders == locked(c.m[key].refCounter.holders) + 1
+//@   ensures[C10,C12] added ==> key in c.m && cachedValue == value && c.m[key].refCounter.holders == 1 && c.m[key].refCounter.fired == 0
+//@   ensures[C10,C12] forall k string :: k != key ==> ((k in c.m <==> locked(k in c.m)) && c.m[k] == locked(c.m[k]))
 //@ func (c *TTLCache) Add$1
-//@   props C10
+//@   props C10,C12
 //@   arith math
 //@   requires c != nil
-//@   ensures[C10] !(key in c.m) && (locked(key in c.m) ==> !member(locked(c.m[key]).refCounter))
-//@   ensures[C10] forall k string :: k != key ==> ((k in c.m <==> locked(k in c.m)) && c.m[k] == locked(c.m[k]))
+//@   ensures[C10,C12] !(key in c.m) && (locked(key in c.m) ==> !member(locked(c.m[key]).refCounter))
+//@   ensures[C10,C12] forall k string :: k != key ==> ((k in c.m <==> locked(k in c.m)) && c.m[k] == locked(c.m[k]))
 //@ func (c *TTLCache) Remove
-//@   props C10
+//@   props C10,C12
 //@   arith math
-//@   ensures[C10] !(key in c.m) && (locked(key in c.m) ==> !member(locked(c.m[key]).refCounter))
-//@   ensures[C10] forall k string :: k != key ==> ((k in c.m <==> locked(k in c.m)) && c.m[k] == locked(c.m[k]))
+//@   ensures[C10,C12] !(key in c.m) && (locked(key in c.m) ==> !member(locked(c.m[key]).refCounter))
+//@   ensures[C10,C12] forall k string :: k != key ==> ((k in c.m <==> locked(k in c.m)) && c.m[k] == locked(c.m[k]))
 
 // the Once body of a done func gives its holder unit back
 //@ func (c *TTLCache) decreaseOnceFunc$1$1
@@ -166,14 +166,14 @@ package cacheutil
 // it makes "one refCounter per entry" a single-variable invariant.
 // A done func is a linear token for one holder unit of rc until its Once fires (protocol assumption, see DESIGN).
 //@ func (c *TTLCache) decreaseOnceFunc$1
-//@   props C10
+//@   props C10,C12
 //@   arith math
 //@   requires c != nil && rc != nil && rc.refCounter != nil && rc.t != nil
 //@   assumelocked !once(once) ==> rc.refCounter.holders >= 1
 //@   assumelocked once(rc.refCounter.initializeOnce)
 //@   assumelocked rc.refCounter.owner == ref(rc)
-//@   ensures[C10] !locked(once(once)) ==> rc.refCounter.holders == locked(rc.refCounter.holders) - 1
-//@   ensures[C10] locked(once(once)) ==> rc.refCounter.holders == locked(rc.refCounter.holders)
-//@   ensures[C10] evict ==> !member(rc.refCounter)
-//@   ensures[C10] forall k string :: locked(k in c.m) && !(k in c.m) ==> evict && locked(c.m[k]) == rc
-//@   ensures[C10] forall k string :: k in c.m ==> locked(k in c.m) && c.m[k] == locked(c.m[k])
+//@   ensures[C10,C12] !locked(once(once)) ==> rc.refCounter.holders == locked(rc.refCounter.holders) - 1
+//@   ensures[C10,C12] locked(once(once)) ==> rc.refCounter.holders == locked(rc.refCounter.holders)
+//@   ensures[C10,C12] evict ==> !member(rc.refCounter)
+//@   ensures[C10,C12] forall k string :: locked(k in c.m) && !(k in c.m) ==> evict && locked(c.m[k]) == rc
+//@   ensures[C10,C12] forall k string :: k in c.m ==> locked(k in c.m) && c.m[k] == locked(c.m[k])
